@@ -244,6 +244,29 @@ PROPS["C11"] = dict(
     assumptions=["well-formed ADFs"],
 )
 
+def nt_parser(st):
+    return st.get("kind") in ("malformed", "fuzz") or (st.get("kind") == "valid" and int(st.get("facts", 0)) >= 2)
+
+
+PROPS["C08"] = dict(
+    level_text="Machine-checked proof (Lean 4) that the parser model - the nom grammar of parser.rs on character lists incl. quoted labels, with its side effects on "
+               "namelist/dict/formulae/formulaname and formula_order - accepts exactly the documented grammar: completeness (C08.parse_complete: every text of the grammar, any fact "
+               "order/layout, alphanumeric incl. keyword-like or quoted labels, yields exactly the written facts, labels verbatim), soundness (C08.parse_sound), unambiguity, the content "
+               "of the parser object (C08.result_spec), and executable rejection tests proved sound (missing terminator, trailing garbage, bad start, unbalanced brackets, wrong arity/unknown "
+               "connective, odd quotes). Tied to the code by a correspondence run of AdfParser::parse (+ Adf::from_parser) against the model and against the generator's ground truth; "
+               "CLI rejection (non-zero exit, empty stdout) is exercised by C15's runs, web parse errors by C16's.",
+    level_note="Trusted: Lean kernel + {propext, Quot.sound}; nom combinators modelled by hand (tie is differential); formulaname observed through the derived Debug output; "
+               "that the Rust parser never panics is observed (catch_unwind), not proved.",
+    technique="Lean 4 proof (completeness by induction on the grammar, soundness by induction on fuel, scanners as necessary conditions) + correspondence check",
+    jobs=[Job("parser", 5000, 200000, size=6, size_thorough=8, relevant=heads("parse", "parsecheck"), nontrivial=nt_parser),
+          Job("parser", 1500, 100000, size=6, extra=("fuzz",), label="parser-fuzz", relevant=heads("parse"), nontrivial=nt_parser)],
+    rule="valid stream: pretty-printed random ASTs (9 constructors, depth <= 4, 1-6 statements, duplicate/missing/undeclared s and ac) x random layouts x label classes "
+         "(alphanumeric, keyword-like, numeric, quoted incl. empty/brackets/blanks/non-ASCII) x fact orders; malformed stream: 17 kinds of definitely-invalid mutations; fuzz: 1-2 random "
+         "character edits. Compared: accept/reject, namelist, whole dict, conditions with labels, formula_order, per-statement truth table of Adf::from_parser. "
+         "non-trivial = distinct malformed/fuzz text or valid text with >= 2 facts",
+    assumptions=["CLI exit status / web parse_only=Error are covered by C15/C16", "truth tables compared for <= 10 declared names"],
+)
+
 
 # ----------------------------------------------------------------------------------------------
 
